@@ -78,8 +78,8 @@ def gen_config(rng, big=False):
         else:
             p = rng.choice([0.4, 0.6, 0.8, 1.0])
             m = [[1 if rng.random() < p else 0 for _ in range(nx)] for _ in range(ny)]
-            if not any(any(r) for r in m):
-                m[rng.randrange(ny)][rng.randrange(nx)] = 1
+            if not any(any(r) for r in m) and not (n_wfs >= 2 and w > 0 and rng.chance(0.5)):
+                m[rng.randrange(ny)][rng.randrange(nx)] = 1          # (now and then a sensor without any active sub-aperture stays)
         masks.append(m)
         diams.append(round(tel / len(m[0]), 6) if rng.chance(0.7) else round(rng.uniform(0.1, 1.5), 4))
     n_layers = rng.weighted([(1, 2), (2, 3), (3, 3)] + ([(4, 2), (6, 1)] if big else []))
@@ -160,7 +160,7 @@ def gen_plan(rng, tier, index=0):
     steps = []
     n_steps = r.randint(3, 24 if big else 10)
     for s in range(n_steps):
-        op = r.weighted([("build", 7), ("recon", 1.5), ("read", 1), ("new", 1), ("reconfig", 1)])
+        op = r.weighted([("build", 7), ("recon", 1.5), ("read", 1), ("new", 1), ("reconfig", 1), ("clone", 0.7)])
         o = r.randrange(n_obj)
         if op == "build":
             k = r.weighted([(1, 3), (2, 3), (3, 2), (4, 2), (5, 1), (6, 1), (8, 1)])
@@ -170,6 +170,8 @@ def gen_plan(rng, tier, index=0):
             steps.append({"op": "recon", "obj": o, "cond": r.choice([0.0, 0.0, 1e-3, 0.05])})
         elif op == "read":
             steps.append({"op": "read", "obj": o})
+        elif op == "clone":
+            steps.append({"op": "clone", "obj": o, "how": r.choice(["deepcopy", "pickle"])})
         elif op == "reconfig":
             # the user changes one ingredient on the live object (a parameter scan) and builds again
             key = r.choice(["gs_pos", "alts", "gs_alt", "r0s", "L0s", "wl"])
@@ -284,6 +286,19 @@ def _run_steps(plan, sc, res, log, kern, objs_cfg, n_obj, refs, objs, last, buil
             res.count("op.new")
             continue
         c = obj(o)
+        if op == "clone":
+            # the user checkpoints the object and goes on with the copy (copy support itself is not part of the property:
+            # an object that refuses to be copied - it may hold a pool - simply stays as it is)
+            import copy
+            import pickle
+            try:
+                objs[o] = pickle.loads(pickle.dumps(c)) if st.get("how") == "pickle" else copy.deepcopy(c)
+                res.count("op.clone")
+                log.add(si, "clone", o, st.get("how"))
+            except Exception as e:
+                res.count("op.clone_refused")
+                log.add(si, "clone-refused", o, type(e).__name__)
+            continue
         if op == "reconfig":
             cfg = objs_cfg[o]
             key, f, sh = st["key"], st.get("f", 1.0), st.get("shift", 0.0)
